@@ -1,8 +1,10 @@
 --------------------------- MODULE TraceLifecycle --------------------------
 (* Judges per-endpoint life-cycle traces of real QuicConnections (netsim)
    against the clauses of Lifecycle (C09).  Lines:
-     init
+     init   idle_c idle_s        the idle timeouts the two endpoints were configured with (and advertise), microseconds
      start  ep t                 connect() / first datagram handed to a server
+     recv   ep t                 a datagram was handed to ep (it may have restarted the idle period)
+     peerclose ep t              a packet carrying the peer's CONNECTION_CLOSE reached ep, which holds the keys to open it
      apiclose ep                 the application called close()
      tx     ep t ndg ftypes unopened st0 st pto0 pto1   return of datagrams_to_send (st0/st: state name before/after)
      gt     ep t value idle      get_timer() after a call (value -1 = None; idle = internal _close_at, -1 = None)
@@ -14,25 +16,39 @@ EXTENDS Lifecycle, TraceBase
 VARIABLE s
 END == {"CLOSING", "DRAINING", "TERMINATED"}
 E0 == [started |-> FALSE, closing |-> FALSE, closeStart |-> 0, pto |-> 0, lastPto |-> 0, terms |-> 0,
-       apiClose |-> FALSE, mustTerm |-> FALSE, idle |-> -1, sentAfterClose |-> 0]
-S0 == [c |-> E0, s |-> E0]
+       apiClose |-> FALSE, mustTerm |-> FALSE, idle |-> -1, sentAfterClose |-> 0,
+       peerClose |-> FALSE, lastAct |-> 0, sentSince |-> FALSE, tpKnown |-> FALSE, maxPto |-> 0]
+S0 == [c |-> E0, s |-> E0, idle |-> [c |-> 0, s |-> 0]]
 MaxOf(a, b) == IF a > b THEN a ELSE b
+MinOf(a, b) == IF a < b THEN a ELSE b
+Peer(p) == IF p = "c" THEN "s" ELSE "c"
+(* The idle timeout in force at endpoint p (RFC 9000 10.1): its own value until it has the peer's transport parameters
+   (reported together with ProtocolNegotiated), the minimum of both afterwards, and never less than three probe timeouts
+   (the largest base probe timeout observed so far is used: the most lenient reading). *)
+NegIdle(st, p) == MaxOf(IF st[p].tpKnown THEN MinOf(st.idle[p], st.idle[Peer(p)]) ELSE st.idle[p], 3 * st[p].maxPto)
 
 StepE(x, e) ==
-  CASE e.ev = "start"    -> [x EXCEPT !.started = TRUE]
+  CASE e.ev = "start"    -> [x EXCEPT !.started = TRUE, !.lastAct = e.t]
+    [] e.ev = "recv"     -> [x EXCEPT !.lastAct = e.t, !.sentSince = FALSE]
+    [] e.ev = "peerclose" -> [x EXCEPT !.peerClose = ~x.closing /\ x.terms = 0]
     [] e.ev = "apiclose" -> [x EXCEPT !.apiClose = ~x.closing]
     [] e.ev = "tx"       ->
-         LET begins == ~x.closing /\ (e.st0 \in END \/ e.st \in END) IN
-         [x EXCEPT !.closing = x.closing \/ begins,
+         LET begins == ~x.closing /\ (e.st0 \in END \/ e.st \in END \/ x.peerClose) IN
+         [x EXCEPT !.peerClose = FALSE, !.maxPto = MaxOf(x.maxPto, MaxOf(e.pto0, e.pto1)),
+                   \* sending after having received may restart the idle period once (RFC 9000 10.1)
+                   !.lastAct = IF e.ndg > 0 /\ ~x.sentSince THEN e.t ELSE x.lastAct,
+                   !.sentSince = x.sentSince \/ e.ndg > 0,
+                   !.closing = x.closing \/ begins,
                    !.closeStart = IF begins THEN e.t ELSE x.closeStart,
                    !.pto = IF begins THEN MaxOf(e.pto0, x.lastPto) ELSE x.pto,
                    !.lastPto = e.pto1, !.apiClose = FALSE, !.mustTerm = FALSE,
                    !.sentAfterClose = IF x.closing THEN x.sentAfterClose + e.ndg ELSE 0]
     [] e.ev = "gt"       -> [x EXCEPT !.idle = e.idle]
     [] e.ev = "timer"    -> [x EXCEPT !.mustTerm = x.idle # -1 /\ e.t >= x.idle]
-    [] e.ev = "event"    -> IF e.cls = "ConnectionTerminated" THEN [x EXCEPT !.terms = @ + 1, !.mustTerm = FALSE] ELSE x
+    [] e.ev = "event"    -> IF e.cls = "ConnectionTerminated" THEN [x EXCEPT !.terms = @ + 1, !.mustTerm = FALSE]
+                            ELSE IF e.cls = "ProtocolNegotiated" THEN [x EXCEPT !.tpKnown = TRUE] ELSE x
     [] OTHER             -> x
-StepS(st, e) == IF e.ev = "init" THEN S0
+StepS(st, e) == IF e.ev = "init" THEN [S0 EXCEPT !.idle = [c |-> e.idle_c, s |-> e.idle_s]]
                 ELSE IF e.ev = "end" THEN st
                 ELSE [st EXCEPT ![e.ep] = StepE(st[e.ep], e)]
 
@@ -45,10 +61,12 @@ Cl(st, e) ==
   CASE e.ev = "gt" ->
          << <<"live-connection-always-has-a-timer", (x.started /\ x.terms = 0) => e.value # -1>>,
             <<"terminates-within-three-pto-of-starting-to-close",
-                (x.closing /\ x.terms = 0 /\ e.value # -1) => e.value <= x.closeStart + 3 * x.pto + 3>> >>
+                (x.closing /\ x.terms = 0 /\ e.value # -1) => e.value <= x.closeStart + 3 * x.pto + 3>>,
+            <<"timer-never-beyond-the-negotiated-idle-deadline",
+                (x.started /\ x.terms = 0 /\ ~x.closing /\ e.value # -1) => e.value <= x.lastAct + NegIdle(st, e.ep) + 3>> >>
     [] e.ev = "tx" ->
          << <<"close-begins-when-transmitting-after-close", x.apiClose => e.st \in END>>,
-            <<"only-closing-packets-after-close", (e.st0 \in END \/ e.st \in END) =>
+            <<"only-closing-packets-after-close", (x.closing \/ x.peerClose \/ e.st0 \in END \/ e.st \in END) =>
                    (e.unopened = 0 /\ ToSet(e.ftypes) \subseteq {"connection_close", "padding"})>>,
             <<"termination-reported-by-the-timer-at-the-deadline", ~x.mustTerm>>,
             <<"model:nothing-sent-while-draining-or-after-the-closing-flight", (e.st0 \in END) => e.ndg = 0>> >>
